@@ -53,11 +53,35 @@ CONTEXTS = {
     "loop": lambda body: "for i in 0 .. 2 do\n" + "".join("    " + l + "\n" for l in body),
     "method": lambda body: "class Ctx\n    def go(fin self) -> Int =>\n" + "".join("        " + l + "\n" for l in body) + "        0\n",
 }
+# flows from a nullable SUBTYPE into a supertype position ({S} <: {T}); {sv} a value of type {S}
+SUB = {"Float": ("Int", "5", ""), "A": ("B", "B()", "class B: A\n    def n(fin self) -> Int => 2\n")}
+SUB_POSITIONS = [
+    ("init S?->T", False, ["def y: {S}? := {sv}", "def x: {T} := y"]),
+    ("reassign S?->T", False, ["def y: {S}? := {sv}", "def x: {T} := {w}", "x := y"]),
+    ("arg S?->T", False, ["def y: {S}? := {sv}", "def r := takes(y)"]),
+    ("ctor S?->T", False, ["def y: {S}? := {sv}", "def b := Box(y)"]),
+    ("method arg S?->T", False, ["def y: {S}? := {sv}", "def b := Box({v})", "def r := b.put(y)"]),
+    ("field reassign S?->T", False, ["def y: {S}? := {sv}", "def b := Box({v})", "b.held := y"]),
+    ("init S->T", True, ["def x: {T} := {sv}"]),
+    ("arg S->T", True, ["def r := takes({sv})"]),
+    ("init S->T?", True, ["def x: {T}? := {sv}"]),
+    ("arg S->T?", True, ["def r := takesopt({sv})"]),
+    ("arg S?->T?", True, ["def y: {S}? := {sv}", "def r := takesopt(y)"]),
+]
+SUB_FUN_POSITIONS = [
+    ("ret S?->T", False, "def q{n}(y: {S}?) -> {T} => y\n"),
+    ("ret S->T", True, "def q{n}(y: {S}) -> {T} => y\n"),
+    ("ret S?->T?", True, "def q{n}(y: {S}?) -> {T}? => y\n"),
+]
+
 OPERAND = [  # operand / receiver positions (Int and A only)
     ("operand T?", False, "Int", ["def y: Int? := 3", "def z := y + 1"]),
     ("operand None", False, "Int", ["def z := None + 1"]),
     ("receiver T?", False, "A", ["def a: A? := None", "def r := a.m()"]),
     ("receiver T", True, "A", ["def a: A := A()", "def r := a.m()"]),
+    ("receiver S? inherited", False, "A", ["def a: B? := None", "def r := a.m()"]),
+    ("receiver S inherited", True, "A", ["def a: B := B()", "def r := a.m()"]),
+    ("operand S? as T", False, "Float", ["def y: Int? := 3", "def z := 1.5 + y"]),
 ]
 
 
@@ -79,9 +103,18 @@ def cases():
                 out.append(("%s/%s/%s" % (T, name, cname), verdict, pre + ctx(b)))
         for n, (name, verdict, tmpl) in enumerate(FUN_POSITIONS):
             out.append(("%s/%s" % (T, name), verdict, TYPES[T][2] + tmpl.replace("{T}", T).replace("{v}", v).replace("{n}", str(n))))
+    for T, (S, sv, spre) in SUB.items():
+        v, w, _ = TYPES[T]
+        pre = prelude(T) + spre
+        for name, verdict, body in SUB_POSITIONS:
+            for cname, ctx in CONTEXTS.items():
+                b = [l.replace("{T}", T).replace("{S}", S).replace("{sv}", sv).replace("{v}", v).replace("{w}", w) for l in body]
+                out.append(("%s<-%s/%s/%s" % (T, S, name, cname), verdict, pre + ctx(b)))
+        for n, (name, verdict, tmpl) in enumerate(SUB_FUN_POSITIONS):
+            out.append(("%s<-%s/%s" % (T, S, name), verdict, TYPES[T][2] + spre + tmpl.replace("{T}", T).replace("{S}", S).replace("{n}", str(n))))
     for name, verdict, T, body in OPERAND:
         for cname, ctx in CONTEXTS.items():
-            out.append(("%s/%s/%s" % (T, name, cname), verdict, TYPES[T][2] + ctx(body)))
+            out.append(("%s/%s/%s" % (T, name, cname), verdict, TYPES[T][2] + SUB.get(T, ("", "", ""))[2] + ctx(body)))
     return out
 
 
